@@ -285,7 +285,20 @@ def F27_purged_map():
     return None if r[1] == 2 else f"match() on the purged map returned {r}"
 
 
-ALL = [F27_purged_map, F26_stale_early_stop_on_a_reused_matcher, F21_antimeridian_box, F20_debug_placeholder_order_in_ne_layer, F15_latlon_triples_node_mode, F1_hashseed, F2_long_edge, F3_latlon_box, F6c_latlon_inf, F4_sqlite_bb, F5a_parallel, F6a_obs_on_road,
+def F28_lines_parallel_axis():
+    """C16: lines_parallel gave a line without extent in the first coordinate the angle 0 (that of a line ALONG the first axis):
+    a road exactly along the second axis was not parallel to a road 0.0006 degrees off it, the same pair with swapped axes
+    was; two perpendicular axis-aligned roads counted as parallel.  connect_parallelroads links roads by this criterion."""
+    from leuvenmapmatching.util import dist_euclidean as de
+    a, b = ((0, 0), (0, 10)), ((0.2, 0), (0.2001, 10))
+    sw = lambda p: (p[1], p[0])
+    r1 = de.lines_parallel(a[0], a[1], b[0], b[1], d=0.5)
+    r2 = de.lines_parallel(sw(a[0]), sw(a[1]), sw(b[0]), sw(b[1]), d=0.5)
+    r3 = de.lines_parallel((0, 0), (0, 10), (-1, 5), (1, 5), d=0.5)
+    return None if (r1, r2, r3) == (True, True, False) else f"nearly parallel pair: {r1}, with swapped axes: {r2} (expected True, True); perpendicular axis-aligned pair: {r3} (expected False)"
+
+
+ALL = [F28_lines_parallel_axis, F27_purged_map, F26_stale_early_stop_on_a_reused_matcher, F21_antimeridian_box, F20_debug_placeholder_order_in_ne_layer, F15_latlon_triples_node_mode, F1_hashseed, F2_long_edge, F3_latlon_box, F6c_latlon_inf, F4_sqlite_bb, F5a_parallel, F6a_obs_on_road,
        F6b_triples_planar_ne, F7_sqlite_reopen_flag, F8_debug_changes_result, F12_sqlite_float32]
 
 if __name__ == '__main__':
